@@ -500,6 +500,160 @@ macro_rules! intlit_bounded {
 }
 intlit_bounded!(c13_op_multiply_intlit_bounded, Multiply);
 
+// ================================ * / % modular in the machine primitive ===========================
+// The full-width check "evaluate_operator(Multiply, a, b) == a *wrapping b" is an equivalence check of two multiplier circuits
+// (CBMC does not share them; kissat needs 7 to 50+ minutes, CaDiCaL does not finish), and the quotient / remainder analogue finishes
+// in no installed back end.  These harnesses are therefore MODULAR in the std primitive the code delegates to: the primitive is
+// replaced by a recorder returning an arbitrary value, and the harness proves that evaluate_operator calls it exactly once, with the
+// two operand values in order, and returns exactly what it returned (None -> not constant).  Together with the contract of the
+// primitive (ASSUMED, from the std documentation: i32/u32::wrapping_mul = multiplication modulo 2^32, i128::checked_mul = exact
+// product or None, checked_div = truncating quotient or None on a zero divisor / overflow, wrapping_rem = remainder of that quotient,
+// 0 for MIN % -1) this is the statement, for every operand value.  If the code stops calling the primitive (count != 1) the harness
+// decides nothing and says so through its cover property (-> undecided, exit 2, never an alarm): another formulation may be as good.
+#[derive(Clone, Copy)]
+struct PrimCall {
+    a: u128,
+    b: u128,
+    /// returned value and whether it was Some (for the checked_ forms)
+    r: u128,
+    some: bool,
+    calls: u32,
+}
+static mut PRIM: PrimCall = PrimCall { a: 0, b: 0, r: 0, some: false, calls: 0 };
+
+macro_rules! prim_total {
+    ($fname:ident, $t:ty) => {
+        fn $fname(a: $t, b: $t) -> $t {
+            let r: $t = kani::any();
+            unsafe { PRIM = PrimCall { a: a as u128, b: b as u128, r: r as u128, some: true, calls: PRIM.calls + 1 }; }
+            r
+        }
+    };
+}
+macro_rules! prim_checked {
+    ($fname:ident, $t:ty) => {
+        fn $fname(a: $t, b: $t) -> Option<$t> {
+            let r: $t = kani::any();
+            let some: bool = kani::any();
+            unsafe { PRIM = PrimCall { a: a as u128, b: b as u128, r: r as u128, some, calls: PRIM.calls + 1 }; }
+            if some { Some(r) } else { None }
+        }
+    };
+}
+prim_total!(rec_total_i32, i32);
+prim_total!(rec_total_u32, u32);
+prim_total!(rec_total_i128, i128);
+prim_checked!(rec_checked_i32, i32);
+prim_checked!(rec_checked_u32, u32);
+prim_checked!(rec_checked_i128, i128);
+
+/// kinds: untyped literal, int, uint - the only kinds the three operators are defined on
+const ARITH: [u8; 3] = [K_INTLIT, K_I32, K_U32];
+
+fn modular_harness(op: ir::IntrinsicOp) {
+    let k: usize = kani::any();
+    kani::assume(k < ARITH.len());
+    let kind = ARITH[k];
+    let (ca, fa) = any_scalar(kind);
+    let (cc, fc) = any_scalar(kind);
+    let wrap: bool = kani::any();
+    let id = ir::EnumId(kani::any());
+    let (x, y) = if wrap {
+        (ir::Constant::Enum(id, Box::new(ca)), ir::Constant::Enum(id, Box::new(cc)))
+    } else {
+        (ca, cc)
+    };
+    let args = leak([ir::Expression::Literal(x), ir::Expression::Literal(y)]);
+    let m = leak_module();
+    let r = leak(evaluate_operator(&op, args, m));
+    let p = unsafe { PRIM };
+    // decided only while the code delegates to the primitive exactly once
+    kani::cover!(p.calls == 1 && kind == K_I32);
+    kani::cover!(p.calls == 1 && kind == K_U32);
+    kani::cover!(p.calls == 1 && kind == K_INTLIT);
+    if p.calls == 1 {
+        // operands handed over unchanged and in order (sign-/zero-extended images of the typed values)
+        let (ea, ec) = match kind {
+            K_I32 => (fa.as_i32() as u128, fc.as_i32() as u128),
+            K_U32 => (fa.as_u32() as u128, fc.as_u32() as u128),
+            _ => (fa.as_lit() as u128, fc.as_lit() as u128),
+        };
+        assert!(p.a == ea && p.b == ec);
+        let expect = if p.some {
+            Expect::Is(match kind {
+                K_I32 => Flat::i(p.r as i32),
+                K_U32 => Flat::u(p.r as u32),
+                _ => Flat::lit(p.r as i128),
+            })
+        } else {
+            Expect::NotConst
+        };
+        check(r, expect, if wrap { Some(id) } else { None }, false);
+    }
+}
+
+#[kani::proof]
+#[kani::unwind(3)]
+#[kani::stub(evaluate_constexpr, stub_eval)]
+#[kani::stub(i32::wrapping_mul, rec_total_i32)]
+#[kani::stub(u32::wrapping_mul, rec_total_u32)]
+#[kani::stub(i128::checked_mul, rec_checked_i128)]
+fn c13_op_multiply_modular() {
+    modular_harness(ir::IntrinsicOp::Multiply);
+}
+
+#[kani::proof]
+#[kani::unwind(3)]
+#[kani::stub(evaluate_constexpr, stub_eval)]
+#[kani::stub(i32::checked_div, rec_checked_i32)]
+#[kani::stub(u32::checked_div, rec_checked_u32)]
+#[kani::stub(i128::checked_div, rec_checked_i128)]
+fn c13_op_divide_modular() {
+    modular_harness(ir::IntrinsicOp::Divide);
+}
+
+/// modulus: a zero divisor is decided by the code itself before the primitive is reached (checked by
+/// c13_op_modulus_special_divisors on the real primitive); here the divisor is non-zero.  uint uses the `%` operator, which cannot be
+/// replaced by a recorder: that kind is left to the special-divisor and bounded harnesses.
+#[kani::proof]
+#[kani::unwind(3)]
+#[kani::stub(evaluate_constexpr, stub_eval)]
+#[kani::stub(i32::wrapping_rem, rec_total_i32)]
+#[kani::stub(i128::wrapping_rem, rec_total_i128)]
+fn c13_op_modulus_modular() {
+    let k: usize = kani::any();
+    kani::assume(k < 2);
+    let kind = ARITH[k];
+    let (ca, fa) = any_scalar(kind);
+    let (cc, fc) = any_scalar(kind);
+    kani::assume(fc.bits != 0);
+    let wrap: bool = kani::any();
+    let id = ir::EnumId(kani::any());
+    let (x, y) = if wrap {
+        (ir::Constant::Enum(id, Box::new(ca)), ir::Constant::Enum(id, Box::new(cc)))
+    } else {
+        (ca, cc)
+    };
+    let args = leak([ir::Expression::Literal(x), ir::Expression::Literal(y)]);
+    let m = leak_module();
+    let r = leak(evaluate_operator(&ir::IntrinsicOp::Modulus, args, m));
+    let p = unsafe { PRIM };
+    kani::cover!(p.calls == 1 && kind == K_I32);
+    kani::cover!(p.calls == 1 && kind == K_INTLIT);
+    if p.calls == 1 {
+        let (ea, ec) = match kind {
+            K_I32 => (fa.as_i32() as u128, fc.as_i32() as u128),
+            _ => (fa.as_lit() as u128, fc.as_lit() as u128),
+        };
+        assert!(p.a == ea && p.b == ec);
+        let expect = Expect::Is(match kind {
+            K_I32 => Flat::i(p.r as i32),
+            _ => Flat::lit(p.r as i128),
+        });
+        check(r, expect, if wrap { Some(id) } else { None }, false);
+    }
+}
+
 // ================================ casts ==========================================================
 // evaluate_cast(target type, value): "HLSL conversion rules for casts between bool, integers, floats and enums".
 // The module is a small concrete registry (6 scalar types + 2 enum types with int / uint underlying types); the
